@@ -218,7 +218,7 @@ func pickRecipe(r *gen.R, sc *stdCfg) recipe {
 		rc.Pkts[2].Label = "authen/ascii/continue-password-after-64KiB-user"
 		return rc
 	case 17:
-		rc := authorSession("ivan", "service="+r.PickS("badsvc", "longsvc", "utfsvc"), "protocol=ip")
+		rc := authorSession("ivan", "service="+r.PickS("badsvc", "longsvc", "utfsvc", "widesvc"), "protocol=ip")
 		rc.Pkts[0].Label = "author/session-with-unrenderable-set-value"
 		return rc
 	case 0, 1:
